@@ -614,8 +614,40 @@ func runC11(c *Ctx) {
 			}
 		}
 	}
-	c.check(deferred && !nonDeferred, "C11.R5", key+"|buffer-released-by-defer", c.pos(fd.Pos()), "ReleaseBuffer only in a defer: no use of the buffer after release",
-		"the pooled buffer is released outside a defer: its bytes can be reused by another request before they are written")
+	// … or, released explicitly, it is released on every path that reaches a return, and nothing on that path uses the
+	// buffer afterwards (a render into it, a write of its bytes)
+	usedAfter, leaked := "", false
+	if nonDeferred {
+		for i := range den.paths {
+			rel := -1
+			for k, e := range evs[i] {
+				if e.kind == "release" && !e.deferred && rel < 0 {
+					rel = k
+				}
+			}
+			if rel < 0 {
+				if !deferred {
+					leaked = true
+				}
+				continue
+			}
+			for _, e := range evs[i][rel+1:] {
+				if e.kind == "render" || e.kind == "effect" && e.usesBuf {
+					usedAfter = e.kind + " at " + c.pos(e.call.Pos())
+				}
+			}
+		}
+	}
+	okRelease := deferred && !nonDeferred || nonDeferred && usedAfter == "" && !leaked
+	whyRelease := "the pooled buffer is never handed back"
+	switch {
+	case usedAfter != "":
+		whyRelease = "the pooled buffer is released and then used (" + usedAfter + "): its bytes can be reused by another request before they are written"
+	case leaked:
+		whyRelease = "the pooled buffer is released explicitly on some paths only"
+	}
+	c.check(okRelease, "C11.R5", key+"|buffer-released-by-defer", c.pos(fd.Pos()), "the buffer is released in a defer, or explicitly as the last use on every path",
+		whyRelease)
 
 	// dispatch: over the paths of ServeHTTP (the two handlers followed into): every path renders exactly once; straight
 	// into the ResponseWriter only on paths that took the StreamResponse flag as true, into a buffer on all others
